@@ -413,7 +413,7 @@ func runC19(tier string) int {
 	}
 	// (e) the same clause over the control-flow program families: each program rewritten on one line, with one token
 	// group per line, and with a comment and CRLF at every line end must compile to the same output
-	plans, swN := enginePlans(tier)
+	plans, swN := liftPlans(tier)
 	forEachEngineProgram(r, plans, swN, func(w int, p engineProgram) {
 		src := model.Print([]*model.Script{p.Script})
 		ref := comp.Compile(src, comp.Opts{Optimize: true})
